@@ -24,17 +24,21 @@ type Mismatch struct {
 
 // Result is what every subcommand writes for the orchestrator.
 type Result struct {
-	Family      string                 `json:"family"`
-	Behaviours  int                    `json:"behaviours"`
-	Steps       int                    `json:"steps"`
-	Nontrivial  int                    `json:"distinct_nontrivial"`
-	Mismatches  []Mismatch             `json:"mismatches"`
-	Samples     []interface{}          `json:"samples"`
-	Extra       map[string]interface{} `json:"extra,omitempty"`
-	SigCounts   map[string]int         `json:"sig_counts"`
-	MaxPerSig   int                    `json:"-"`
-	perSigSeen  map[string]int
+	Family     string                 `json:"family"`
+	Behaviours int                    `json:"behaviours"`
+	Steps      int                    `json:"steps"`
+	Nontrivial int                    `json:"distinct_nontrivial"`
+	Mismatches []Mismatch             `json:"mismatches"`
+	Samples    []interface{}          `json:"samples"`
+	Extra      map[string]interface{} `json:"extra,omitempty"`
+	SigCounts  map[string]int         `json:"sig_counts"`
+	MaxPerSig  int                    `json:"-"`
+	perSigSeen map[string]int
+	badBeh     int
 }
+
+// BadBehaviours is the number of behaviours with at least one mismatch.
+func (r *Result) BadBehaviours() int { return r.badBeh }
 
 // NewResult creates a result for a family.
 func NewResult(family string) *Result {
